@@ -12,6 +12,7 @@ fn main() {
     if args.get("verbose-panics").is_none() {
         // panics of the code under test are data; panics of the harness itself must be visible
         std::panic::set_hook(Box::new(|info| {
+            mlverif::util::note_panic(&info.to_string());
             if let Some(l) = info.location() {
                 if l.file().contains("/verif/") || l.file().ends_with("verif.rs") || l.file().starts_with("src/") {
                     eprintln!("HARNESS PANIC at {}:{}: {}", l.file(), l.line(), info);
@@ -30,6 +31,7 @@ fn main() {
         "sock" => drivers::sock::run(&args),
         "putq" => drivers::putq::run(&args),
         "query" => drivers::query::run(&args),
+        "tickconf" => drivers::tickconf::run(&args),
         "auth" => drivers::auth::run(&args),
         "lookup" => drivers::lookup::run(&args),
         "join" => drivers::join::run(&args),
